@@ -22,17 +22,17 @@ theorem inv_gul (n : Nat) (sh : Sh) (pcs : Nat → Pc) (t : Nat) (e : Env) (o : 
     split at hts
     next hd =>
       simp only [Option.some.injEq, Prod.mk.injEq] at hts; obtain ⟨rfl, rfl⟩ := hts
-      refine ⟨gate_step n sh _ pcs t _ (menv e) hlt hgI (by rw [hgp, hm, hidle]; rfl) rfl rfl,
+      refine ⟨gate_step n sh _ pcs t _ (menvG e) hlt hgI (by rw [hgp, hm, hidle]; rfl) rfl rfl,
         rl_step n sh _ pcs t _ .unlock hlt hrI (by rw [hrp, if_pos hd]; rfl), ?_, hgrp, hwg⟩
       have := hC (.rul .dropR 0 (.p0fadd .fin)); simp [cntR] at this; simp only []; omega
     next hd =>
       simp only [Option.some.injEq, Prod.mk.injEq] at hts; obtain ⟨rfl, rfl⟩ := hts
-      refine ⟨gate_step n sh _ pcs t _ (menv e) hlt hgI (by rw [hgp, hm, hidle]; rfl) rfl rfl,
+      refine ⟨gate_step n sh _ pcs t _ (menvG e) hlt hgI (by rw [hgp, hm, hidle]; rfl) rfl rfl,
         rl_same n sh _ pcs t _ hlt hrI rfl (by rw [hrp, if_neg hd]; rfl), ?_, hgrp, hwg⟩
       have := hC .idle; simp [cntR] at this; simp only []; omega
   next hni =>
     simp only [Option.some.injEq, Prod.mk.injEq] at hts; obtain ⟨rfl, rfl⟩ := hts
-    refine ⟨gate_step n sh _ pcs t _ (menv e) hlt hgI (by rw [hgp, hm]; rfl) rfl rfl,
+    refine ⟨gate_step n sh _ pcs t _ (menvG e) hlt hgI (by rw [hgp, hm]; rfl) rfl rfl,
       rl_same n sh _ pcs t _ hlt hrI rfl (by rw [hrp]; rfl), ?_, hgrp, hwg⟩
     have := hC (.gul o p'); simp [cntR] at this; simp only []; omega
 
